@@ -184,7 +184,7 @@ SPECIAL_VALUES = ["(-8)^2.5", "1e200^2.5", "(1e-200)^-2.5", "(-1)^0.5", "(-2)^(1
                   "asin(2)", "(exp(1000)-exp(1000))", "2^0.5", "sqrt(2)", "1|3", "-1|3", "2147483647", "2147483648", "-2147483649",
                   "9223372036854775807", "9223372036854775808", "1e19", "1e-19", "4294967296", "0.1", "1.0000000000000001", "pi",
                   "ans", "now", "#2020-01-01#", "water", "(2 kg water)", "(3 m oxygen)", "(1 mol gold)", "'q'", "m", "m^-1", "s", "1 year",
-                  "1e18 s", "-1e18 s", "9.3e15 s", "1e-10 s", "K", "degree", "byte", "USD"]
+                  "1e18 s", "-1e18 s", "9.3e15 s", "1e-10 s", "K", "degree", "byte", "USD", "1073741824", "715827883", "-2147483648", "3", "2"]
 CONTEXTS = ["now + {} s", "now - {} s", "#2020-01-01# + {}", "#2020-01-01# - {}", "#2020-01-01 12:00 +05:00# + {} year", "now - {}",
             "2^{}", "{}^{}", "{}^-1", "{}^0.5", "{}^(1|3)", "1 << {}", "1 >> {}", "{} << 2", "{} mod 1", "1 mod {}", "{} mod {}", "{} and 1",
             "{} xor {}", "1 / {}", "{} / {}", "{} | {}", "{} {}", "{} + {}", "{} - {}", "-{}", "1 -> {}", "1 m -> {} m", "{} -> m", "{} -> {}",
@@ -192,7 +192,13 @@ CONTEXTS = ["now + {} s", "now - {} s", "#2020-01-01# + {}", "#2020-01-01# - {}"
             "{} degC", "{} -> degF", "{} K -> degC", "sqrt({})", "ln({})", "atan2({}, {})", "hypot({}, {})", "log({}, {})", "{} m -> ft;in",
             "{} -> hour;min;sec", "units for {}", "factorize {}", "{} water", "density of ({} water)", "mass of ({} m^3 water)",
             "{} -> UTC", "{} -> +05:00", "{} -> \"US/Pacific\"", "{} -> potato = {}", "{} of {}", "volume of {}", "{}%", "{} percent",
-            "{} -> 1/{}", "{} -> ({})^-1", "{} -> {}/({})", "({}) ({})^2 -> {}", "{} + {} + {}", "{} -> {} + {}"]
+            "{} -> 1/{}", "{} -> ({})^-1", "{} -> {}/({})", "({}) ({})^2 -> {}", "{} + {} + {}", "{} -> {} + {}",
+            # the previous answer as a list member / target (it may be zero, NaN, a date, a substance ...)
+            "{}", "{}", "5 -> ans, ANS", "{} -> ans;ans", "{} -> _", "{} -> ans", "{} -> m, ans", "1 -> ans^-1", "{} -> 1/ans",
+            # exponents of base units near the i32 / i64 limits
+            "(m^{})^{}", "((m^{})^{})^{}", "m^{} * m", "m^{} m^{}", "m^{} / m^-{}", "(kg^{})^{}", "1 -> (m^{})^{}", "sqrt(m^{})",
+            "(m^2)^1073741824", "(m^-2)^1073741824", "(byte^3)^715827883", "(m^2)^-1073741824",
+            "((m^2147483647)^2147483647)^3", "((s^-2147483647)^2147483647)^-2"]
 SUBSTANCES = ["water", "gold", "oxygen", "nitrogen", "H2O", "C2H6", "NaCl", "air", "2 kg water", "3 m oxygen", "1 mol gold", "5 liter water",
               "2 oxygen", "(1|0) water", "ln(-1) gold", "0 water", "1 kg nitrogen", "1 m oxygen", "iron / 2", "water * 3 s"]
 OFFSETS = ["+00:00", "+23:59", "-23:59", "+24:00", "+99:99", "+999999:00", "-999999:00", "+2147483647:00", "+596523:00", "+596524:00",
@@ -212,6 +218,27 @@ def g_special(rng):
     base = rng.choice(["2020-01-01 00:00:00", "2020-01-01 12:00", "2020-01-01T00:00", "jan 1, 1970 03:00 pm", "12:34:56", "1970 January 1 12:00", "2020-366 00:00"])
     lit = "#%s %s#" % (base, rng.choice(OFFSETS))
     return rng.choice(["{}", "{} + 1 day", "{} - #2020-01-01#", "{} -> +05:00", "now - {}", "{} -> UTC"]).format(lit)
+
+
+SEARCH_UNITS = ["m", "kg", "s", "A", "K", "mol", "cd", "bit", "radian", "meter", "second", "gram", "newton", "joule", "watt", "volt", "ohm",
+                "farad", "tesla", "pascal", "hertz", "ft", "lb", "gallon", "USD", "byte", "year", "c", "G", "hbar", "coulomb", "liter"]
+
+
+def g_searchcmd(rng):
+    """commands whose cost depends on a search space, not on the size of a value: factorize / units for over products of
+    units with exponents up to +-12, and the same built up through ans"""
+    r = rng.random()
+    prod = " ".join("%s^%d" % (u, rng.choice([-12, -9, -7, -5, -4, -3, -2, -1, 1, 2, 3, 4, 5, 6, 7, 8, 10, 12]))
+                    for u in rng.sample(SEARCH_UNITS, rng.randrange(2, 8)))
+    if r < 0.55:
+        return "factorize " + prod
+    if r < 0.7:
+        return "units for " + prod
+    if r < 0.8:
+        return rng.choice(["ans * (%s)", "(%s) / ans", "ans / (%s)"]) % prod
+    if r < 0.9:
+        return rng.choice(["factorize ans", "units for ans", "factorize ans^2", "factorize 1/ans", "factorize ans^3 m"])
+    return "search " + "".join(rng.choice("abcdefghijklmnopqrstuvwxyz_ ") for _ in range(rng.randrange(1, 300)))
 
 
 def g_soup(rng):
@@ -269,6 +296,9 @@ _SEP = "_\u2009"
 _NUM = r"(?:\d[\d_\u2009]*)?(?:\.[\d_\u2009]+)?(?:[eE][eE]?[+-]?[\d_\u2009]+)?"
 
 
+_UNIT_POWER = re.compile(r"(?<![\w.)\]])(?!(?:ans|ANS|_)\b)[^\W\d]\w*\s*(?:\^|\*\*)\s*[-+]?\d{1,2}(?![\d.eE|_\u2009]|\s*(?:\^|\*\*))")
+
+
 def _literal_value(tok):
     """value of a decimal literal as the lexer reads it (separators skipped), or None"""
     t = "".join(c for c in tok if c not in _SEP)
@@ -289,7 +319,10 @@ def is_expensive(text):
     Expensive (or unknown) iff: two or more power/shift operators; a literal with a decimal exponent of 1000
     or more (or exponents summing over 3000); a power/shift/digits operand that is a literal of value >= 1000,
     or that is not a literal at all (its size cannot be bounded lexically)."""
-    if sum(text.count(t) for t in ("^", "**", "<<", ">>")) >= 2:
+    nops = sum(text.count(t) for t in ("^", "<<", ">>")) + len(re.findall(r"\*\*", text))
+    # a name raised to a literal of at most two digits (`m^12 kg^3 s^-7`) cannot make anything large
+    nops -= len(_UNIT_POWER.findall(text))
+    if nops >= 2:
         return True
     exps = []
     for m in re.finditer(r"[eE][eE]?[+-]?([\d_\u2009]+)", text):
@@ -322,6 +355,13 @@ def is_expensive(text):
         v = _literal_value(tok)
         if v is None or v >= 1000:
             return True
+        if m.group(1) in ("<<", ">>"):
+            # the count of a shift is a whole juxtaposition (`1 << 999 million`): anything but an operator after the
+            # literal makes its size unknown
+            after = rest[len(tok):].lstrip()
+            w = re.match(r"[^\W\d]\w*", after)
+            if after and not (after[0] in ")+-*/|,;=<>\u2192\u2212" or (w and w.group(0) in ("to", "in", "per", "mod", "and", "or", "xor"))):
+                return True
     return False
 
 
@@ -332,7 +372,9 @@ def run_history(part, probe, rng, corpus, length, budget):
     cid = probe.ctx(kind, save_prev=True)
     for step in range(length):
         gen = rng.choice(["grammar", "grammar", "soup", "mutation", "mutation", "raw", "special", "special"])
-        text = {"grammar": g_grammar, "soup": g_soup, "raw": g_raw, "special": g_special}.get(gen, lambda r: g_mutation(r, corpus))(rng)
+        if rng.random() < 0.03:
+            gen = "searchcmd"           # about 2 s each in the probe profile: kept rare
+        text = {"grammar": g_grammar, "soup": g_soup, "raw": g_raw, "special": g_special, "searchcmd": g_searchcmd}.get(gen, lambda r: g_mutation(r, corpus))(rng)
         text = text.replace("\n", " ")[:500]
         part.evaluations += 1
         cheap = not is_expensive(text)
@@ -477,13 +519,13 @@ def cli_slice(run, seed, n, corpus):
 
 def run(tier, seed):
     run = Run("C04", tier, seed, "exploration", floor=1000)
-    run.rule = ("inputs <= 500 characters from five interleaved generators (a grid of special values - NaN, infinities, zeros, boundary integers, dates, substances - in every operator/command context; grammar-directed over the whole query language with "
+    run.rule = ("inputs <= 500 characters from six interleaved generators (search-space commands: factorize / units for over unit products with exponents up to +-12, also built up through ans; a grid of special values - NaN, infinities, zeros, boundary integers, dates, substances - in every operator/command context; grammar-directed over the whole query language with "
                 "boundary integers planted in every numeric position; token soup over every token spelling; mutations of a corpus "
                 "extracted from the manual and the test suite; raw Unicode incl. nesting stress), evaluated in histories on "
                 "long-lived contexts with text, span-tree and JSON rendering, health query after every history, plus a slice "
                 "through the real `rink -f -` binary; non-trivial = distinct input that got past the lexer")
-    run.assumptions = ["cheap/expensive: an input is expensive iff it has >= 2 power/shift operators, an e-notation exponent >= 1000 "
-                       "(or exponents summing over 3000), or a power/shift/digits operand of more than 3 digits; only cheap inputs "
+    run.assumptions = ["cheap/expensive: an input is expensive iff it has >= 2 power/shift operators (not counting a name raised to a literal of at most two digits), an e-notation exponent >= 1000 "
+                       "(or exponents summing over 3000), or a power/shift/digits operand of more than 3 digits, or a shift count followed by a juxtaposed term; only cheap inputs "
                        "are obliged to answer within the watchdog (re-run alone with 3x budget before it counts)",
                        "probe profile: opt-level 1, overflow checks and debug assertions on, 8 MiB stack, 4 GiB address space"]
     corpus = load_corpus()
